@@ -342,6 +342,10 @@ def judge_attempt(sr, inp, res):
             ref = c.get("ref", "ref")
             sig = SIG_DESIGN if ref.startswith("design.") else "edif.%s.undeclared_target_accepted" % ref
             sr.spec_failure(sig, brief, "reference %s retargeted to an undeclared name was accepted" % ref)
+        if kind == "rescope" and c.get("expect") == "raise":
+            sr.spec_failure("edif.%s.out_of_scope_target_accepted" % c.get("ref", "ref"), brief,
+                            "reference %s retargeted to %r, which is declared in the file but not in the scope the reference is resolved in, was accepted"
+                            % (c.get("ref"), c.get("with")))
         if kind == "unsupported":
             sr.spec_failure("edif.unsupported_construct_accepted.%s" % c["with"].strip("()").split()[0], brief,
                             "unsupported construct %s was accepted" % c["with"])
@@ -510,8 +514,26 @@ def make_attempts(rec, rng, sample, probe_frac, n_replace):
     out = [{"kind": "attempt", "fmt": rec["fmt"], "origin": rec["origin"], "text": rec["text"],
             "corruption": {"kind": "none", "pos": 0}, "policy0": p, "probe": True} for p in POLICIES]
     for c in cs:
-        out.append({"kind": "attempt", "fmt": rec["fmt"], "origin": rec["origin"], "text": T.apply(rec, c),
-                    "corruption": c, "policy0": policy_for(rec["fmt"], rng), "probe": rng.random() < probe_frac})
+        text = T.apply(rec, c)
+        if c.get("must"):
+            # never sampled away, both initial policies, always with the fresh-process probe
+            for p in POLICIES:
+                out.append({"kind": "attempt", "fmt": rec["fmt"], "origin": rec["origin"], "text": text,
+                            "corruption": c, "policy0": p, "probe": True})
+        else:
+            out.append({"kind": "attempt", "fmt": rec["fmt"], "origin": rec["origin"], "text": text,
+                        "corruption": c, "policy0": policy_for(rec["fmt"], rng), "probe": rng.random() < probe_frac})
+    return out
+
+
+def edge_attempts():
+    """nothing, blanks, only a comment: every format, both policies, every tier"""
+    out = []
+    for fmt in ("edif", "verilog", "eblif"):
+        for name, text in T.EDGE_TEXTS[fmt]:
+            for p in POLICIES:
+                out.append({"kind": "attempt", "fmt": fmt, "origin": "edge", "text": text,
+                            "corruption": {"kind": "edge", "pos": 0, "name": name, "text": text}, "policy0": p, "probe": True})
     return out
 
 
@@ -521,8 +543,14 @@ def make_history(rng, recs, n_ops):
         x = rng.random()
         if x < 0.6:
             rec = rng.choice(recs)
-            if rng.random() < 0.5:
+            y = rng.random()
+            if y < 0.45:
                 txt = rec["text"]
+            elif y < 0.6:
+                txt = rng.choice(T.EDGE_TEXTS[rec["fmt"]])[1]
+            elif y < 0.7:
+                cs = [c for c in T.corruptions(rec, rng=rng, sample=0, n_replace=1) if c.get("must")]
+                txt = T.apply(rec, rng.choice(cs)) if cs else rec["text"]
             else:
                 cs = T.corruptions(rec, rng=rng, sample=8, n_replace=1)
                 txt = T.apply(rec, rng.choice(cs))
@@ -618,6 +646,7 @@ def run(ctx):
             sizes = dict(n_leaf=(1, 2), n_mid=(1, 2), max_ports=2, max_children=2) if ctx.tier == "quick" else \
                 dict(n_leaf=(1, 3), n_mid=(1, 3), max_ports=3, max_children=3)
             recs = base_texts(rng, n_gen, REPO, sizes)
+            recs.append({"fmt": "edif", "origin": "fixed:scopes", "text": T.EDIF_SCOPES, "full_refs": True})
             recs += composed_texts(rng, ctx.scale(2, 5), tmp)
             for fmt in ("edif", "verilog", "eblif"):
                 b = T.bundled_texts(REPO, fmt)
@@ -626,7 +655,8 @@ def run(ctx):
                 recs += b
         finally:
             shutil.rmtree(tmp, ignore_errors=True)
-        sample = ctx.scale(180, None)
+        jobs.extend(edge_attempts())
+        sample = ctx.scale(120, None)
         for rec in recs:
             ntok = len(T.SPANS[rec["fmt"]](rec["text"]))
             ctx.dist("text.%s.tokens%d" % (rec["fmt"], min(ntok // 200 * 200, 1000)))
